@@ -386,7 +386,8 @@ class IPAddr (_AddrBase):
       if type(n) is not IPAddr:
         n = IPAddr(n)
 
-    return (self.toUnsigned() & ~((1 << (32-b))-1)) == n.toUnsigned()
+    mask = ~((1 << (32-b))-1)
+    return (self.toUnsigned() & mask) == (n.toUnsigned() & mask)
 
   def get_network (self, netmask_or_bits):
     """
@@ -710,7 +711,8 @@ class IPAddr6 (_AddrBase):
       if type(n) is not IPAddr6:
         n = IPAddr6(n)
 
-    return (self.num & ~((1 << (128-b))-1)) == n.num
+    mask = ~((1 << (128-b))-1)
+    return (self.num & mask) == (n.num & mask)
 
   def to_str (self, zero_drop = True, section_drop = True, ipv4 = None):
     """
